@@ -229,7 +229,7 @@ def run(tier):
         nseeds = seed_corpus(ck, seeds)
         for f in glob.glob(os.path.join(build.VERIF, 'corpus', 'c01', '*')):
             shutil.copy(f, seeds)
-        runs = 4000 if tier == 'quick' else 600000
+        runs = 4000 if tier == 'quick' else 200000
         maxlen = 4096 if tier == 'quick' else 65536
         shards = core.NCPU
         ck.note('fuzzing: %d shards x %d runs, %d seeds' % (shards, runs, nseeds))
